@@ -64,9 +64,12 @@ class Screen:
                 self.c = 0
                 i += 1
             elif ch == "\x1b":
-                m = re.match(r"\x1b\[(\d*)([AJ])", s[i:])
+                m = re.match(r"\x1b\[([\d;]*)([AJm])", s[i:])
                 if not m:
                     return False
+                if m.group(2) == "m":                      # colours and attributes do not move the cursor
+                    i += len(m.group(0))
+                    continue
                 n = int(m.group(1) or 0)
                 if m.group(2) == "A":
                     self.r = max(0, self.r - n)
@@ -111,6 +114,8 @@ def _sequence_case(w, nsec, ops, ansi, prefill=False):
         st = TtyBuffer() if ansi == "tty-plain" else BufferedOutputStream()
         # "tty-plain": a stream that supports ANSI with a formatter that disables it (what --no-ansi installs): still an output without ANSI support
         out = Output(st, AnsiFormatter(forced=True) if ansi is True else PlainFormatter())
+        from clikit.api.formatter.style import Style
+        out.formatter.add_style(Style("late").fg("cyan"))          # a style added after construction
         ansi = ansi is True
         secs = [out.section() for _ in range(nsec)]
         model = [[] for _ in range(nsec)]          # current content lines per section, creation order
@@ -133,6 +138,16 @@ def _sequence_case(w, nsec, ops, ansi, prefill=False):
                 scope = s.indent(ind)
             else:
                 pad, scope = "", None
+            if kind == "clear0":                   # the boundary value of a partial clear: nothing or (as here) everything may go - but screen and section must agree
+                s.clear(0)
+                if s.content == "":
+                    del m[:]
+                kind = None
+            if kind == "write_tagged":             # a line with style markup, one tag registered at construction and one added later: rows are counted on the VISIBLE text
+                s.write_line("<b>" + t[:1] + "</b><late>" + t[1:] + "</late>")
+                m.append(pad + t if t else t)
+                appended.append(pad + t if t else t)
+                kind = None
             if kind == "overwrite_same":           # overwrite with exactly the first line the section currently shows
                 kind = "overwrite"
                 if m and m[0].strip() != "":
@@ -199,7 +214,7 @@ def _sequence_case(w, nsec, ops, ansi, prefill=False):
             return False
         # what each section reports as its content is what the model holds
         for s, m in zip(secs, model):
-            if [x.rstrip(" ") for x in s.content.split("\n")] != [x.rstrip(" ") for x in "".join(x + "\n" for x in m).split("\n")]:
+            if [x.rstrip(" ") for x in re.sub(r"</?(b|late)>", "", s.content).split("\n")] != [x.rstrip(" ") for x in "".join(x + "\n" for x in m).split("\n")]:
                 return False                       # (blanks at the end of a line are invisible: an indented empty line may be kept as blanks)
         return True
     finally:
@@ -222,7 +237,7 @@ def sequence(s1: int, k1: int, l1: int, s2: int, k2: int, l2: int, s3: int, k3: 
     return untraced(_sequence_case, PART["w"], nsec, ops, PART["ansi"], PART.get("prefill", False))
 
 
-KINDS_X = KINDS + ["write_tail", "overwrite_same"]
+KINDS_X = KINDS + ["write_tail", "overwrite_same", "clear0", "write_tagged"]
 LENS_X = [1, 3]           # indices into the length menu: 1 character, W + 1 characters
 INDS_X = [0, 2]
 
@@ -230,14 +245,14 @@ INDS_X = [0, 2]
 def sequence_indent(s1: int, k1: int, l1: int, i1: int, s2: int, k2: int, l2: int, i2: int, s3: int, k3: int, l3: int, i3: int) -> bool:
     """
     pre: 0 <= s1 < PART["nsec"] and 0 <= s2 < PART["nsec"] and 0 <= s3 < PART["nsec"]
-    pre: 0 <= k1 < 8 and 0 <= k2 < 8 and 0 <= k3 < 8
+    pre: 0 <= k1 < 10 and 0 <= k2 < 10 and 0 <= k3 < 10
     pre: 0 <= l1 < 2 and 0 <= l2 < 2 and 0 <= l3 < 2 and 0 <= i1 < 2 and 0 <= i2 < 2 and 0 <= i3 < 2
     pre: s1 == PART["s1"] and i1 == PART["i1"] and (PART.get("k1") is None or k1 == PART["k1"])
     pre: PART["nops"] > 2 or (s3 == 0 and k3 == 0 and l3 == 0 and i3 == 0)
     post: _
     """
     nsec = PART["nsec"]
-    ops = [(conc_int(s, 0, nsec - 1), KINDS_X[conc_int(k, 0, 7)], LENS_X[conc_int(l, 0, 1)], INDS_X[conc_int(i, 0, 1)])
+    ops = [(conc_int(s, 0, nsec - 1), KINDS_X[conc_int(k, 0, 9)], LENS_X[conc_int(l, 0, 1)], INDS_X[conc_int(i, 0, 1)])
            for s, k, l, i in ((s1, k1, l1, i1), (s2, k2, l2, i2), (s3, k3, l3, i3))][: PART["nops"]]
     return untraced(_sequence_case, PART["w"], nsec, ops, PART["ansi"], PART.get("prefill", False))
 
@@ -455,7 +470,7 @@ def conditions(tier):
     for w, nsec, nops, ansi, prefill in iconf:
         for s1 in range(nsec):
             for i1 in range(2):
-                for k1 in ([None] if nops == 2 else range(8)):
+                for k1 in ([None] if nops == 2 else range(10)):
                     conds.append({"name": "sequence_indent[w=%d,%dsec,%dops,%s,first=s%d.indent%d%s]" % (w, nsec, nops, "ansi" if ansi else "plain", s1, INDS_X[i1], "" if k1 is None else "." + KINDS_X[k1]),
                                   "fn": sequence_indent, "timeout": t, "part": {"w": w, "nsec": nsec, "nops": nops, "ansi": ansi, "s1": s1, "i1": i1, "k1": k1, "prefill": prefill},
                                   "bounds": "width %d, %d sections%s, %d operations over sections x %r x text lengths {1, W+1} x indentation scope {0, 2} on the section; %s" % (
